@@ -106,6 +106,11 @@ func (env *specEnv) eval(e SExpr) Val {
 				v, _ := fc.structField(b, c.String(), "arr")
 				return v
 			}
+		case VOpaque:
+			if isIntMap(b.Typ) {
+				// m[k] in a contract: Go's lookup (0 for an absent key or the nil map), in the state of the environment
+				return VInt{fc.mapReadIn(env.st.cheap, b.ID, i)}
+			}
 		}
 		panic(unsupported(fmt.Sprintf("contract index on %T in %s", base, e)))
 	case SSlice:
@@ -515,6 +520,18 @@ func (env *specEnv) call(x SCall) Val {
 			return VInt{v.Len}
 		}
 		panic(unsupported("len() of non-sequence in contract"))
+	case "atlock":
+		// atlock(e): e in the state right after the most recent Lock of a monitored lock (where the protected fields
+		// hold whatever the other threads left there); the reference point for what a critical section changed
+		if env.st.lockSnap == nil {
+			panic(unsupported("atlock() where no monitored lock was taken on every path"))
+		}
+		n := *env
+		n.st = env.st.lockSnap
+		if n.cur == nil {
+			n.cur = env.st
+		}
+		return n.eval(x.Args[0])
 	case "sameheap":
 		// sameheap(): nothing has been written since the old state (bytes and cells)
 		if env.old == nil {
